@@ -51,6 +51,11 @@ Definition pkh_row_ok (tab : list (N * N)) (o : pinput * N * option N) : bool :=
 Definition pkh_tap_row_ok (tab xl : list (N * N)) (o : pinput * N * option N) : bool :=
   opt_eqb N.eqb (resolve_pkh_tap (pkh_fun tab) (pkh_fun xl) (fst (fst o)) (snd (fst o))) (snd o).
 
+(* time-lock predicate rows: (kind 0 = after / 1 = older, version, nLockTime, nSequence, n, answer) *)
+Definition tl_row_ok (o : N * N * N * N * N * bool) : bool :=
+  let '(k, ver, lt, sq, n, r) := o in
+  Bool.eqb (if (k =? 0)%N then psbt_check_after lt sq n else psbt_check_older ver sq n) r.
+
 Section Run.
   Variable descs : list (N * dinfo).        (* what a fresh update records, per descriptor *)
   Variable sigflags : list (N * N).         (* sighash flag of every partial signature that is not ALL *)
